@@ -289,6 +289,41 @@ func c08Render(o interface{}) *c08Gv {
 		return c08RPolyQP(*x)
 	case *structs.Vector[uint64]:
 		return c08RVecU64(*x)
+	case *structs.Vector[uint32]:
+		l := make([]*c08Gv, len(*x))
+		for i, e := range *x {
+			l[i] = c08VNum(uint64(e))
+		}
+		return c08VList(l)
+	case *structs.Vector[uint16]:
+		l := make([]*c08Gv, len(*x))
+		for i, e := range *x {
+			l[i] = c08VNum(uint64(e))
+		}
+		return c08VList(l)
+	case *structs.Vector[uint8]:
+		l := make([]*c08Gv, len(*x))
+		for i, e := range *x {
+			l[i] = c08VNum(uint64(e))
+		}
+		return c08VList(l)
+	case *structs.Matrix[uint64]:
+		l := make([]*c08Gv, len(*x))
+		for i := range *x {
+			l[i] = c08RVecU64((*x)[i])
+		}
+		return c08VList(l)
+	case *structs.Map[uint64, ring.Poly]:
+		keys := make([]uint64, 0, len(*x))
+		for k := range *x {
+			keys = append(keys, k)
+		}
+		sort.Slice(keys, func(i, j int) bool { return keys[i] < keys[j] })
+		l := make([]*c08Gv, len(keys))
+		for i, k := range keys {
+			l[i] = c08VPair(c08VNum(k), c08RPoly(*(*x)[k]))
+		}
+		return c08VList(l)
 	case *rlwe.PlaintextMetaData:
 		return c08RPtMeta(*x)
 	case *rlwe.CiphertextMetaData:
